@@ -12,6 +12,14 @@ mod loader;
 /// it must be used from the internals to build new adapters.
 pub mod adapter;
 
+/// Verification hooks (feature `verif-hooks` only): access to private pure functions.
+#[cfg(feature = "verif-hooks")]
+#[doc(hidden)]
+pub mod verif_hooks {
+    pub use super::resource_id::ResourceIdGenerator;
+    pub use super::poll::{verif_token_of, verif_id_of_token, verif_waker_token};
+}
+
 // Reexports
 pub use adapter::{SendStatus};
 pub use resource_id::{ResourceId, ResourceType};
